@@ -22,6 +22,8 @@ pub enum Op {
     Frames,
     /// generate_all (terminal)
     Finish,
+    /// hand the generator over to a freshly spawned thread: every later call is made there (the type is `Send`)
+    Move,
 }
 
 #[derive(Clone, Debug, PartialEq, Eq, Hash)]
@@ -39,6 +41,8 @@ pub struct GenModel {
     nframes: usize,
     extras: Vec<usize>,
     depth: usize,
+    /// whether the hand-over to another thread is part of the alphabet (small cases only)
+    moves: bool,
     transitions: AtomicU64,
     finish_at: std::sync::Mutex<std::collections::BTreeSet<usize>>,
     mixed_sizes: AtomicU64,
@@ -51,57 +55,66 @@ pub struct GenModel {
 /// Replay a history on a fresh real generator and check every clause of the statement.
 pub fn replay_history(engine: &Engine, labels: &[String], oneshot: &[f64], hist: &[Op]) -> Result<(), String> {
     let r = catch(|| -> Result<(), String> {
-        let mut g = engine.generator(labels).map_err(|e| format!("generator error: {}", e))?;
-        let fp = g.fperiod();
-        let nframes = oneshot.len() / fp.max(1);
-        let mut produced = 0usize;
-        let mut out: Vec<f64> = Vec::new();
-        for (i, op) in hist.iter().enumerate() {
-            match op {
-                Op::Step(extra) => {
-                    let mut buf = vec![SENTINEL; fp + extra];
-                    let n = g.generate_step(&mut buf);
-                    if produced < nframes {
-                        if n != fp {
-                            return Err(format!("op {}: step returned {} before exhaustion (fperiod {})", i, n, fp));
-                        }
-                        out.extend_from_slice(&buf[..fp]);
-                        produced += 1;
-                        let a = &oneshot[(produced - 1) * fp..produced * fp];
-                        if !bits_eq(a, &buf[..fp]) {
-                            return Err(format!("op {}: frame {} from generate_step differs from the one-shot waveform", i, produced - 1));
-                        }
-                    } else {
-                        if n != 0 {
-                            return Err(format!("op {}: exhausted generator returned {}", i, n));
-                        }
-                        if buf.iter().any(|x| x.to_bits() != SENTINEL.to_bits()) {
-                            return Err(format!("op {}: exhausted generator wrote into the buffer", i));
-                        }
-                    }
-                }
-                Op::Frames => {}
-                Op::Finish => {
-                    let k = produced;
-                    let rest = g.generate_all();
-                    let want = &oneshot[k * fp..];
-                    if !bits_eq(&rest, want) {
-                        return Err(format!("op {}: generate_all after {} steps returned {} samples, want the {}-sample suffix of the one-shot waveform (first difference at {:?})", i, k, rest.len(), want.len(), rest.iter().zip(want).position(|(a, b)| a.to_bits() != b.to_bits())));
-                    }
-                    return Ok(());
-                }
-            }
-            let f = g.synthesized_frames();
-            if f != produced {
-                return Err(format!("op {}: synthesized_frames() = {}, productive steps so far = {}", i, f, produced));
-            }
-        }
-        Ok(())
+        let g = engine.generator(labels).map_err(|e| format!("generator error: {}", e))?;
+        run_ops(g, 0, 0, oneshot, hist)
     });
     match r {
         Ok(x) => x,
         Err(p) => Err(format!("panic: {}", p)),
     }
+}
+
+fn run_ops(mut g: jbonsai::speech::SpeechGenerator, mut produced: usize, at: usize, oneshot: &[f64], hist: &[Op]) -> Result<(), String> {
+    let fp = g.fperiod();
+    let nframes = oneshot.len() / fp.max(1);
+    for (i, op) in hist.iter().enumerate().skip(at) {
+        match op {
+            Op::Step(extra) => {
+                let mut buf = vec![SENTINEL; fp + extra];
+                let n = g.generate_step(&mut buf);
+                if produced < nframes {
+                    if n != fp {
+                        return Err(format!("op {}: step returned {} before exhaustion (fperiod {})", i, n, fp));
+                    }
+                    produced += 1;
+                    let a = &oneshot[(produced - 1) * fp..produced * fp];
+                    if !bits_eq(a, &buf[..fp]) {
+                        return Err(format!("op {}: frame {} from generate_step differs from the one-shot waveform", i, produced - 1));
+                    }
+                } else {
+                    if n != 0 {
+                        return Err(format!("op {}: exhausted generator returned {}", i, n));
+                    }
+                    if buf.iter().any(|x| x.to_bits() != SENTINEL.to_bits()) {
+                        return Err(format!("op {}: exhausted generator wrote into the buffer", i));
+                    }
+                }
+            }
+            Op::Frames => {}
+            Op::Finish => {
+                let k = produced;
+                let rest = g.generate_all();
+                let want = &oneshot[k * fp..];
+                if !bits_eq(&rest, want) {
+                    return Err(format!("op {}: generate_all after {} steps returned {} samples, want the {}-sample suffix of the one-shot waveform (first difference at {:?})", i, k, rest.len(), want.len(), rest.iter().zip(want).position(|(a, b)| a.to_bits() != b.to_bits())));
+                }
+                return Ok(());
+            }
+            Op::Move => {
+                // the rest of the history runs on a thread that has never touched the library
+                return std::thread::scope(|sc| match sc.spawn(move || catch(move || run_ops(g, produced, i + 1, oneshot, hist))).join() {
+                    Ok(Ok(r)) => r.map_err(|e| format!("{} (after the generator was moved to a new thread at op {})", e, i)),
+                    Ok(Err(p)) => Err(format!("panic: {} (after the generator was moved to a new thread at op {})", p, i)),
+                    Err(_) => Err("panic: worker thread died".to_string()),
+                });
+            }
+        }
+        let f = g.synthesized_frames();
+        if f != produced {
+            return Err(format!("op {}: synthesized_frames() = {}, productive steps so far = {}", i, f, produced));
+        }
+    }
+    Ok(())
 }
 
 impl Model for GenModel {
@@ -121,6 +134,10 @@ impl Model for GenModel {
             }
             out.push(Op::Frames);
             out.push(Op::Finish);
+            // one hand-over per history, and only where a call follows it
+            if self.moves && s.hist.len() + 1 < self.depth && !s.hist.contains(&Op::Move) {
+                out.push(Op::Move);
+            }
         }
     }
     fn next_state(&self, s: &HState, a: Op) -> Option<HState> {
@@ -157,6 +174,7 @@ fn op_json(o: &Op, fp: usize) -> Value {
         Op::Step(e) => json!({"generate_step_buffer_len": fp + e}),
         Op::Frames => json!("synthesized_frames"),
         Op::Finish => json!("generate_all"),
+        Op::Move => json!("move the generator to a new thread"),
     }
 }
 
@@ -222,7 +240,7 @@ fn tiny_cases(tier: Tier) -> Vec<Case> {
 pub fn run(tier: Tier) -> i32 {
     let rep: &'static Report = Box::leak(Box::new(Report::new("C02", tier, "model_checking")));
     let monitor = std::sync::Arc::new(HangMonitor::start(rep, "C02 generator history"));
-    rep.set_rule("HIST (stateright BFS): all call histories over {generate_step with buffer fp, fp+1, 2fp, 3fp; synthesized_frames; generate_all (terminal)} up to depth N+3 on real generators of N = 0..5 frames (tiny generated voices, both filter families, 2 and 3 streams, frame periods 1 and 4); every transition rebuilds a fresh generator and replays the history; no state merging; half of the engines with the postfilter on (beta 0.3-0.5), volume and half tone set; plus on V0 (beta 0.3): constant and cycling buffer sizes to exhaustion and generate_all after exactly k steps for every k; plus one utterance of > 4200 frames: generate_all after k steps for k around every power of two, and stepping to exhaustion; non-trivial = history contains at least one step or finish");
+    rep.set_rule("HIST (stateright BFS): all call histories over {generate_step with buffer fp, fp+1, 2fp, 3fp; synthesized_frames; generate_all (terminal); on generators of at most 3 frames also: hand the generator to a freshly spawned thread, once per history} up to depth N+3 on real generators of N = 0..5 frames (tiny generated voices, both filter families, 2 and 3 streams, frame periods 1 and 4); every transition rebuilds a fresh generator and replays the history; no state merging; half of the engines with the postfilter on (beta 0.3-0.5), volume and half tone set; plus on V0 (beta 0.3): constant and cycling buffer sizes to exhaustion and generate_all after exactly k steps for every k, every other one also with a hand-over to a new thread before the first call and half-way; plus one utterance of > 4200 frames: generate_all after k steps for k around every power of two, and stepping to exhaustion; non-trivial = history contains at least one step or finish");
     rep.assume("buffers no larger than 3 x fperiod; what a step does to buffer samples beyond the first fperiod is not constrained");
     let total_states = AtomicU64::new(0);
     let case_no = AtomicU64::new(0);
@@ -262,6 +280,7 @@ pub fn run(tier: Tier) -> i32 {
                 nframes,
                 extras: extras.clone(),
                 depth,
+                moves: nframes <= 3,
                 transitions: Default::default(),
                 finish_at: Default::default(),
                 mixed_sizes: Default::default(),
@@ -338,6 +357,16 @@ pub fn run(tier: Tier) -> i32 {
                 h.push(Op::Finish);
                 hists.push(h);
             }
+            // the same families with the generator handed to another thread before the first call, and half-way
+            let plain: Vec<Vec<Op>> = hists.iter().step_by(2).cloned().collect();
+            for h in plain {
+                let mut h0 = vec![Op::Move];
+                h0.extend(h.iter().cloned());
+                hists.push(h0);
+                let mut hm = h.clone();
+                hm.insert(h.len() / 2, Op::Move);
+                hists.push(hm);
+            }
             rep.par_for(hists.len(), 1, "C02 part 1", |i| {
                 rep.eval(1);
                 rep.traces.fetch_add(1, Ordering::Relaxed);
@@ -380,6 +409,13 @@ pub fn run(tier: Tier) -> i32 {
                 let mut odd: Vec<Op> = (0..n + 1).map(|i| Op::Step(i % 3)).collect();
                 odd.push(Op::Frames);
                 hists.push(odd);
+                for k in [0usize, 1, 1000] {
+                    let mut h = vec![Op::Step(0); k];
+                    h.push(Op::Move);
+                    h.extend(vec![Op::Step(0); 300]);
+                    h.push(Op::Finish);
+                    hists.push(h);
+                }
                 rep.par_for(hists.len(), 1, "C02 long utterance", |i| {
                     rep.eval(1);
                     rep.traces.fetch_add(1, Ordering::Relaxed);
@@ -437,6 +473,8 @@ pub fn replay(v: &Value) -> i32 {
                 Op::Step(n as usize - fp)
             } else if o.as_str() == Some("generate_all") {
                 Op::Finish
+            } else if o.as_str() == Some("move the generator to a new thread") {
+                Op::Move
             } else {
                 Op::Frames
             }
